@@ -28,7 +28,7 @@ Val(c, e) == [c |-> c, e |-> e]
 Zero(sr) == Val([i \in 1 .. NComp(sr) |-> 0], 0)
 One(sr) == Val([i \in 1 .. NComp(sr) |-> IF i = 1 THEN 1 ELSE 0], 0)
 
-Scale(x, d) == Val([i \in DOMAIN x.c |-> x.c[i] * Pow8(d)], x.e + d)
+Scale(x, d) == Val([i \in DOMAIN x.c |-> IF x.c[i] = 0 \/ d = 0 THEN x.c[i] ELSE x.c[i] * Pow8(d)], x.e + d)
 (* the same value written with exponent e (e >= x.e) *)
 AtExp(x, e) == Scale(x, e - x.e)
 SameValue(x, y) == LET m == Max2(x.e, y.e) IN AtExp(x, m).c = AtExp(y, m).c
